@@ -8,7 +8,7 @@ import threading
 from harness import behave, core, tlc
 from harness.terms import canon, terms_equal, wire_match
 
-DATES = [["str", "%04d-02-28" % y] for y in (2019, 2020, 2021, 2022, 2023, 2024)]
+DATES = [["str", "%04d-02-28" % y] for y in (2019, 2020, 2021, 2022, 2023, 2024, 2025)]
 TABLE = [(["date", "int", "str"], DATES + [["int", 5], ["str", "t"]]), (["bytes"], [["str", "AQL/\n"]])]
 
 
@@ -120,6 +120,22 @@ def forward_refs(rep, tier):
         n += 1
         if res is not None:
             rep.violation("generic-specialisation-order", {"order": list(order), "actual": res, "expected": "same as a fresh family", "replay_module": "harness.checks.c14_extra"})
+    # a parent compiled at its first call (lazy / postponed) that nests a class whose own annotations are not resolvable yet:
+    # the nested class postpones ITSELF, exactly as under an eagerly compiled parent -- in every admissible order of first use
+    allops = ["define", "none.to", "none.from", "full.to", "full.from"]
+    for pm in ("eager", "lazy", "postponed"):
+        for ik in ("plain", "mixin"):
+            for fmt in ("dict", "json"):
+                if ik == "plain" and fmt == "json" and tier == "quick":
+                    continue
+                for order in itertools.permutations(allops):
+                    if order.index("define") > min(order.index("full.to"), order.index("full.from")):
+                        continue
+                    res = c14_subjects.run_nested_postponed_family(pm, ik, fmt, order)
+                    n += 1
+                    if res is not None:
+                        rep.violation("postponed-evaluation", {"order": list(order), "family": ["nested-postponed", pm, ik, fmt], "actual": res,
+                                                               "expected": "same as with an eagerly compiled parent", "replay_module": "harness.checks.c14_extra"})
     rep.count(n)
     rep.cov["traces_validated_against_impl"] += n
 
